@@ -86,7 +86,7 @@ def obligations(tier, ctx):
                       call=f"H.dispatch_nth(mi, {has}, k, hsel, {lim})", backend="P", timeout=900, family="count: the (n+1)-th message on one server, n = c-1, c, c+1 (c: integer constants of the source)"))
     nsz = len(consts.size_cases(70000, extra=ENV_SIZES))
     for where in range(5):
-        for pat in ((0,) if tier == "quick" else (0, 2, 4)):
+        for pat in (((0,) if where < 3 else (6, 7, 8)) if tier == "quick" else (0, 2, 4, 6, 7, 8)):
             obs.append(Ob(name=f"long_w{where}_p{pat}", params=[("k", "int"), ("mi", "int"), ("hsel", "int")],
                           pre=[f"0 <= k < {nsz}", ("mi in (1, 3)" if where in (0, 4) else "mi in (0, 1)" if where == 2 else "mi == 3"), ("hsel in (0, 6)" if where != 4 else "hsel in (6, 7)")],
                           call=f"H.dispatch_long(mi, k, {pat}, {where}, hsel)", backend="P", timeout=900,
